@@ -60,6 +60,92 @@ def qcvar_request(torch, lam, shifted):
             "max_iter": 100000, "cols": enc_flt([[float(z) for z in col] for col in shifted])}, precision
 
 
+# ---------------- whole tensors through the tensor level of the model (Model/CritTensor.lean, driver op "crit_tensor"): the input
+# tensor of any shape, the target as the caller passes it (none, Python number, 0-dim / per-column / per-path / full tensor), the
+# form (module | functional with its dim, None = the function's default) -> shape and values of the result, or the error kind
+CT_RAT = ("es", "var", "oce")
+
+
+def ct_tensor(t, carrier):
+    vals = [float(v) for v in t.detach().reshape(-1).tolist()]
+    return {"shape": list(t.shape), "data": enc_rat([F(v) for v in vals]) if carrier == "rat" else enc_flt(vals)}
+
+
+def ct_add(torch, reqs, metas, case, which, par, x, target, form, dim, st, v):
+    """queue one call for "crit_tensor"; `par` = p | a | lam | [u-kind, a, b, w]; (st, v) = what the implementation returned"""
+    if x.dtype != torch.float64 or (torch.is_tensor(target) and target.dtype != torch.float64):
+        return
+    carrier = "rat" if which in CT_RAT else "float"
+    aux = None
+    if which in ("es", "var", "erm", "eloss"):
+        spec = [which, float_bits(float(par))]
+    elif which == "iso":
+        spec = ["iso", float_bits(float(par)), float(par) == 1.0]
+    elif which == "oce":
+        spec = ["oce", list(par[:3]), par[3]]
+    else:   # quadratic CVaR: the precision is derived from input - target along the reduced dimension exactly as the code does
+        try:
+            pl = (x if target is None else x - target).detach()
+            d = 0 if form != "functional" else dim
+            if d is None:
+                pl, d = pl.flatten(), 0
+            cen = pl - pl.mean(dim=d, keepdim=True)
+            lower = torch.amin(-cen, dim=d, keepdim=True) - 1e-8
+            upper = torch.amax(-cen, dim=d, keepdim=True) + 1e-8
+            precision = 1e-6 * 10 ** int(math.log10((upper - lower).amax()))
+        except Exception:  # noqa
+            return
+        spec = ["qcvar", float_bits(float(par)), float_bits(1e-8), float_bits(precision), 100000]
+        aux = (float(par), precision)
+    if target is None:
+        tj = None
+    elif torch.is_tensor(target):
+        tj = ct_tensor(target, carrier)
+    else:
+        tj = {"number": rat_str(F(target)) if carrier == "rat" else float_bits(float(target))}
+    if st == "ok":
+        impl = ("ok", list(v.shape), [float(z) for z in v.detach().reshape(-1).tolist()])
+    else:
+        impl = ("err", v)
+    rq = {"op": "crit_tensor", "carrier": carrier, "crit": spec, "form": form, "dim": dim, "target": tj}
+    rq.update(ct_tensor(x, carrier))
+    reqs.append(rq)
+    metas.append(("crit_tensor", case | {"crit_tensor": {"criterion": which, "form": form, "dim": dim, "shape": list(x.shape),
+                                                         "target": "none" if target is None else (list(target.shape) if torch.is_tensor(target) else repr(target))}},
+                  (which, aux, impl)))
+
+
+def ct_check(ctx, case, info, mo):
+    """shape exactly; values at the tolerances of the one-column ops"""
+    which, aux, impl = info
+    if impl[0] == "err":
+        if mo.get("err") != impl[1]:
+            ctx.disagree("crit_tensor", case, list(impl), mo, note="error kind")
+        return
+    if "ok" not in mo:
+        ctx.disagree("crit_tensor", case, {"shape": impl[1], "values": impl[2][:8]}, mo, note="the model raises")
+        return
+    shape, data = mo["ok"]["shape"], mo["ok"]["data"]
+    got = impl[2]
+    if shape != impl[1] or len(data) != len(got):
+        ctx.disagree("crit_tensor", case, {"shape": impl[1], "values": got[:8]}, {"shape": shape, "values": data[:8]}, note="shape")
+        return
+    if which in ("es", "oce"):
+        ok = all(math.isfinite(a) and feq(a, b) for a, b in zip(got, dec_rat(data)))
+    elif which == "var":
+        ok = all(close(a, float(b), 1e-12, 1e-15) for a, b in zip(got, dec_rat(data)))
+    elif which == "erm":
+        ok = all(close(a, b, 1e-10, 1e-12) for a, b in zip(got, dec_flt(data)))
+    elif which in ("eloss", "iso"):
+        ok = all(close(a, b, 1e-10) for a, b in zip(got, dec_flt(data)))
+    else:
+        lam, prec = aux
+        tol = lam * (4 * prec) ** 2 + 4 * prec * 1e-3
+        ok = all(abs(a - b) <= tol + 1e-9 * max(1.0, abs(a)) for a, b in zip(got, dec_flt(data)))
+    if not ok:
+        ctx.disagree("crit_tensor", case, {"shape": impl[1], "values": got[:8]}, {"shape": shape, "values": data[:8]}, note="value")
+
+
 REUSE_NAME = {"es": "expected_shortfall", "var": "value_at_risk", "erm": "entropic_risk_measure", "eloss": "entropic_loss",
               "iso": "isoelastic", "qcvar": "quadratic_cvar", "oce": "oce"}
 
@@ -118,6 +204,7 @@ def check(ctx):
             case |= {"p": pf, "k": k, "module": use_mod}
             ctx.case(case, True, tag="es")
             ctx.traces += 1
+            ct_add(torch, reqs, metas, case, "es", pf, x, None if tgt is None else tgt_tensor(), "module" if use_mod else "functional", None if use_mod else 0, st, v)
             if st != "ok":
                 ctx.fail("expected shortfall raised on a valid sample", case, key="expected_shortfall:error", detail=v)
                 continue
@@ -145,6 +232,7 @@ def check(ctx):
             case |= {"p": pf}
             ctx.case(case, True, tag="var")
             ctx.traces += 1
+            ct_add(torch, reqs, metas, case, "var", pf, x, None if tgt is None else tgt_tensor(), "functional", 0, st, v)
             if st != "ok":
                 ctx.fail("value at risk raised on a valid sample", case, key="value_at_risk:error", detail=v)
                 continue
@@ -194,6 +282,10 @@ def check(ctx):
             case |= {"a": a, "big": big}
             ctx.case(case, True, tag=which)
             ctx.traces += 1
+            if which == "erm" and use_mod:
+                ct_add(torch, reqs, metas, case, "erm", a, x, None if tgt is None else tgt_tensor(), "module", None, st, v)
+            elif not (which == "eloss" and big):
+                ct_add(torch, reqs, metas, case, which, a, xx, None, "functional" if which == "erm" else "module", None, st, v)
             if st != "ok":
                 ctx.fail(f"{which} raised on a valid sample", case, key=f"{which}:error", detail=v)
                 continue
@@ -225,6 +317,7 @@ def check(ctx):
             case |= {"a": a}
             ctx.case(case, True, tag="iso")
             ctx.traces += 1
+            ct_add(torch, reqs, metas, case, "iso", a, xx, None, "module", None, st, v)
             if st != "ok":
                 ctx.fail("isoelastic loss raised on a positive sample", case, key="isoelastic:error", detail=v)
                 continue
@@ -247,6 +340,7 @@ def check(ctx):
             case |= {"lam": lam, "module": use_mod}
             ctx.case(case, True, tag="qcvar")
             ctx.traces += 1
+            ct_add(torch, reqs, metas, case, "qcvar", lam, x, None if tgt is None else tgt_tensor(), "module" if use_mod else "functional", None if use_mod else 0, st, v)
             if st != "ok":
                 ctx.fail("quadratic CVaR raised on a valid sample", case, key="quadratic_cvar:error", detail=v)
                 continue
@@ -296,6 +390,9 @@ def check(ctx):
             case |= {"u": [uk, rat_str(ua if uk == "quad" else ub), rat_str(ub if uk == "quad" else ua)], "w": rat_str(w0)}
             ctx.case(case, True, tag="oce")
             ctx.traces += 1
+            if smp["kind"] not in ("small", "large"):
+                ct_add(torch, reqs, metas, case, "oce", case["u"] + [rat_str(w0)], x, None if tgt is None else tgt_tensor(), "module", None, st,
+                       v.detach() if st == "ok" else v)
             if st != "ok":
                 ctx.fail("OCE raised on a valid sample", case, key="oce:error", detail=v)
                 continue
@@ -329,14 +426,16 @@ def check(ctx):
         if which == "es":
             pf = float(g.choice([F(1, 10), F(1, 2), F(1), F(1, nall), F(g.randint(1, nall), nall), F(33, 100)]))
             st, v, _ = call_impl(fnl.expected_shortfall, x, pf)
+            ct_add(torch, reqs, metas, case | {"p": pf}, "es", pf, x, None, "functional", None, st, v)
             pn = F(pf) * nall
             ks = {math.ceil(pf * nall)} if not (abs(pn - round(pn)) <= F(1, 10 ** 9) and pn != round(pn)) else {math.floor(pn), math.ceil(pn), int(round(pn))} - {0}
-            if st != "ok" or v.dim() != 0 or not any(feq(F(float(v)), es_exact(kk, allv)) for kk in ks):
+            if st != "ok" or v.dim() != 0 or not math.isfinite(float(v)) or not any(feq(F(float(v)), es_exact(kk, allv)) for kk in ks):
                 ctx.fail("expected_shortfall(dim=None) differs from minus the mean of the ceil(p n) worst entries of the whole tensor", case | {"p": pf},
                          key="expected_shortfall:dim-none", detail=str(v)[:100])
         elif which == "var":
             pf = float(g.choice([F(1, 10), F(1, 2), F(1), F(1, nall), F(g.randint(1, nall), nall), F(33, 100), F(999, 1000)]))
             st, v, _ = call_impl(fnl.value_at_risk, x, pf)
+            ct_add(torch, reqs, metas, case | {"p": pf}, "var", pf, x, None, "functional", None, st, v)
             kind_, exp = var_expected(pf, allv)
             tolv = 1e-12 * max(1.0, max(abs(float(z)) for z in allv))
             okv = st == "ok" and v.dim() == 0 and (
@@ -349,6 +448,7 @@ def check(ctx):
         else:
             lam = g.choice([1.0, 2.0, 10.0])
             st, v, _ = call_impl(fnl.quadratic_cvar, x, lam)
+            ct_add(torch, reqs, metas, case | {"lam": lam}, "qcvar", lam, x, None, "functional", None, st, v)
             exact, wstar = qcvar_exact(lam, allv)
             spread = float(max(allv) - min(allv)) + 1e-8
             prec = 1e-6 * 10 ** int(math.log10(2 * spread)) if spread > 0 else 1e-6
@@ -409,9 +509,12 @@ def check(ctx):
             got = flat(-v.mean(0))
         else:
             if form == "module":
+                tobj = None
                 st, v, mut = call_impl(nn.IsoelasticLoss(a), xx)
             else:
-                st, v, mut = call_impl(nn.IsoelasticLoss(a), xx, g.choice([tval, torch.tensor(tval, dtype=torch.float64)]))
+                tobj = g.choice([tval, torch.tensor(tval, dtype=torch.float64)])
+                st, v, mut = call_impl(nn.IsoelasticLoss(a), xx, tobj)
+            ct_add(torch, reqs, metas, case, "iso", a, xx, tobj, "module", None, st, v)
             if st != "ok":
                 ctx.fail("isoelastic loss raised on a positive sample", case, key="isoelastic:wealth-range:error", detail=v)
                 continue
@@ -529,6 +632,12 @@ def check(ctx):
                 st, v, mut = call_impl(fn_, x if target is None else x - target, par, **kw)
             if mut:
                 ctx.mutated(which, mut, case)
+            ct_add(torch, reqs, metas, case, which, par, x, target, form, (None if dimnone else 0) if form == "functional" else None, st,
+                   v.detach() if st == "ok" else v)
+            if form == "module" and step == 0 and which in ("es", "erm", "eloss", "qcvar"):
+                # the closed-form cash of the same module on the same tensors: -self(input - target) (EntropicLoss: minus the entropic risk)
+                stc, vc, _ = call_impl(mod.cash, x, target) if target is not None else call_impl(mod.cash, x)
+                ct_add(torch, reqs, metas, case, which, par, x, target, "cash", None, stc, vc.detach() if stc == "ok" else vc)
             if st != "ok":
                 ctx.fail(f"{name} raised on a valid sample (a tensor evaluated before / a leaf that requires grad)", case, key=f"{name}:reuse:error", detail=v)
                 break
@@ -617,7 +726,11 @@ def check(ctx):
         ctx.ties_broken.append({"kind": "driver", "detail": str(e)[:1500]})
         outs = []
     for (which, case, got), mo in zip(metas, outs):
-        if which == "es":
+        if which == "crit_tensor":
+            ctx.stats["crit_tensor"] += 1
+            ctx.stats[f"crit_tensor:{got[0]}:{case['crit_tensor']['form']}:dim={case['crit_tensor']['dim']}"] += 1
+            ct_check(ctx, case, got, mo)
+        elif which == "es":
             if not all(feq(a_, b_) for a_, b_ in zip(got, dec_rat(mo["es"]))):
                 ctx.disagree("es", case, enc_rat(got), mo["es"])
         elif which == "var":
@@ -653,5 +766,6 @@ def check(ctx):
              "targets, functional (dim=0) and module forms; levels p with integral and non-integral pN incl. p<=1/N, p>1-1/N; a in 2^-6..8, |a x| up to 1e4; "
              "lam in {1,2,10,64}; isoelastic a in {1,1/4,1/2,3/4} also on wealth 1e-12..1e-6 and 1e6..1e12 (module, module with target, functional); "
              "sessions of three evaluations on the same input / target objects (float, int, 0-dim, full, per-column and per-path targets, module "
-             "also deep-copied, functional dim=0 / default, leaf tensors that require grad); "
+             "also deep-copied, functional dim=0 / default, leaf tensors that require grad); every call with its whole input tensor, target object, "
+             "form and dim also through the tensor level of the model (op crit_tensor: shape exactly, values at the one-column tolerances; closed-form cash included); "
              "every case non-trivial; distinct = sha1 of canonical case")
